@@ -97,7 +97,11 @@ def check(tier, seed, replay=None):
             policy = rnd.choice(["ignore", "panic", "stderr", "stdout"])
             vals = [G.rand_value(rnd, rnd.choice([0, 1, 2]), interoperable=True) for _ in range(rnd.choice([0, 1, 2, 3, 5]))]
             clean, noisy, regions, before = C6.noisy_stream(rnd, vals, rnd.choice([0.0, 0.0, 0.5, 1.0]))
-            pipeline = rnd.choice([[], [], ["--select=. =v"], ["--sort-by=."], ["--merge"], ["--unique"]])
+            pipeline = rnd.choice([[], [], ["--select=. =v"], ["--sort-by=."], ["--merge"], ["--unique"], ["--split-by=."], ["--split-by=.", "--take=2"],
+                                   ["--filter=(not (null? .))", "--skip=1"]])
+            if pipeline and pipeline[0] == "--split-by=.":
+                vals = [("arr", [G.rand_value(rnd, 1, interoperable=True) for _ in range(rnd.choice([1, 2, 3]))]) for _ in range(rnd.choice([1, 2, 3]))]
+                clean, noisy, regions, before = C6.noisy_stream(rnd, vals, rnd.choice([0.0, 0.0, 0.5]))
             if pipeline == ["--sort-by=."]:
                 vals = [v for v in vals if v[0] != "obj"]
                 clean, noisy, regions, before = C6.noisy_stream(rnd, vals, rnd.choice([0.0, 0.5]))
@@ -105,6 +109,11 @@ def check(tier, seed, replay=None):
             extra = [rnd.choice(["--filter=(no_such 1)", "--select=(+ 1", "--sort-by=. SIDEWAYS", "--set=novalue", "--style=pretty", "--bogus"])] if invalid else []
             if extra == ["--style=pretty"]:
                 extra = ["--output-style=text", "--style=pretty"]
+            if invalid and rnd.random() < 0.3:
+                # configurations that are only found invalid when the output stage is started, whatever the limits say
+                pipeline = [p for p in pipeline if not p.startswith("--select")]
+                extra = rnd.choice([["--output-style=csv"], ["--output-style=text", "--headers"], ["--output-style=csv", "--group-by=.g", "--select=. =v"],
+                                    ["--output-style=csv", "--merge", "--select=. =v"]]) + rnd.choice([[], ["--take=0"], ["--take=0", "--skip=1"], ["--skip=2"], ["--take=1"]])
             mode = rnd.choice(["normal", "normal", "normal", "closed", "full"])
             # rows that do not end in a new line stay in the line-buffered standard output until the process ends
             sep = rnd.choice([[], [], ["--row-seperator=,"], ["--row-seperator= ; "]])
@@ -135,9 +144,9 @@ def check(tier, seed, replay=None):
             continue
         t = twin[i]
         writes_something = (t["res"] in ("ok", "err")) and (len(bytes.fromhex(t["out"])) > 0)
-        fails = p["invalid"] or (p["policy"] == "panic" and p["regions"] > 0) or (p["mode"] != "normal" and writes_something and not p["invalid"])
-        if p["mode"] != "normal" and p["policy"] == "panic" and p["regions"] > 0:
-            fails = True
+        # with --take the input need not be read up to a malformed region: there the in-process run says whether the region was reached
+        hit_panic = p["policy"] == "panic" and p["regions"] > 0 and (t["res"] == "err" if any(a.startswith("--take") for a in p["argv"]) else True)
+        fails = p["invalid"] or hit_panic or (p["mode"] != "normal" and writes_something and not p["invalid"])
         if p["mode"] == "stdin-dir":
             fails = True
         rec = RL.base_record("proc", p["policy"], "plain", False, None, b"")
